@@ -18,6 +18,12 @@ CHECKS = {
  'C05': dict(level='fault_enumeration', technique='runtime monitor: OSError injection at every file-system / file-object event (single faults exhaustive per configuration, pairs for small ones; strace errno injection) + outcome-dependent post-condition oracle + retry',
    text='Every single injected failure (and pairs) at each call of the save, across the configuration product of overwrite/overwrite_part/rm_part_on_exc/text_mode/file_perms/umask/initial destination and part file/body behaviour; post-conditions: exception reaches the caller unless the new content is completely published, destination bytes and mode unchanged without publication, no own part file left with rm_part_on_exc, foreign part file untouched without overwrite_part, permissions explicit > replaced > umask, immediate fault-free retry succeeds.',
    note='Faults are raised instead of the call; a failing close still releases the fd. A left-over part file is accepted only when the injected fault hit the clean-up unlink itself. fdopen and the best-effort fcntl calls are not fault targets.', ref='3/C05'),
+ 'C09': dict(level='exploration', technique='runtime monitor: differential oracle per helper (slicing, str.split/str.strip/re.split on the corresponding character string, comprehension models, literal chunk_ranges clauses) over generated inputs and a parameter grid',
+   text='Each helper of the statement is run on generated sequences (all container kinds incl. one-shot iterators, sizes around multiples, separators at both ends, every maxsplit) and compared with an independent oracle; chunk_ranges is swept over a parameter grid (full grid in thorough) against the five clauses of the statement; *_iter forms compared with the list forms.',
+   note='Trusted: Python slicing, str.split/strip, re.split as the reference. Negative maxsplit and overlap_size >= chunk_size are not generated.', ref='3/C09'),
+ 'C15': dict(level='exploration', technique='runtime monitor: clause predicates on every yielded sequence with boundary-targeted float parameters (ulp-nudged powers) and a scripted random source rebound into iterutils',
+   text='All clauses of the statement (first value, exact geometric growth capped at stop, monotone, length, default count ends on stop, jitter bounds for random draws 0, 1-2^-53 and seeded, ValueError before the first value for invalid parameters) are evaluated on generated parameter tuples concentrated on the floating-point boundaries of the default count.',
+   note='Reference sequence computed with the same float multiplication; jitter bounds with 4 ulp tolerance; default-count sequences limited to < 5000 values; repeat checked on a 200-value prefix.', ref='3/C15'),
 }
 NA_REASON = 'check not built yet in this session (work in progress; see DESIGN.md section 3 for the planned monitor)'
 def main():
